@@ -66,7 +66,28 @@ pub fn run(args: &Args, out: &mut Out) {
         builtins.push((n.to_owned(), StandardLibrary::from_name(n).unwrap()));
     }
     builtins.push(("roblox_base".to_owned(), StandardLibrary::roblox_base()));
+    // the library the roblox-only code paths look for: `Context::is_roblox` tests the library's *name*
+    let mut named_roblox = StandardLibrary::roblox_base();
+    named_roblox.name = Some("roblox".to_owned());
+    builtins.push(("roblox_named".to_owned(), named_roblox));
     let mut progs: Vec<(String, String)> = EXTRA.iter().map(|(n, s)| (format!("extra:{n}"), (*s).to_owned())).collect();
+    // string literals made of escape fragments and of characters of every UTF-8 length — digits included (`\d` of the
+    // regex crate accepts every Unicode decimal digit): the lint computes byte ranges inside the literal by hand
+    let pieces: &[&str] = &[
+        "\\x", "\\u{", "\\", "\\z", "\\1", "\\25", "\\255", "\\256", "}", "\u{663}", "\u{ff13}", "\u{7c3}", "a", "F", "g",
+        "\u{e9}", "\u{1f600}", "0", "9", " ", "\\\n", "\\\r\n", "\\'", "\\\"", "{", "\\u", "\\x4", "\u{660}\u{661}",
+    ];
+    let nsoup = if args.tier == "thorough" { 400 } else { 60 };
+    for k in 0..nsoup {
+        let mut body = String::new();
+        for _ in 0..1 + rng.below(6) {
+            body.push_str(*rng.pick(pieces));
+        }
+        let q = *rng.pick(&["\"", "'"]);
+        // an unescaped quote of the same kind would end the literal early: the pieces contain none
+        progs.push((format!("extra:escape-soup-{k}"), format!("local s = {q}{body}{q}\nprint(s)\n")));
+        out.bump("escape_soup_program");
+    }
     progs.extend(programs(args, out, &mut rng, "/verif/corpus/c11"));
 
     // (a) every program x every built-in library x a random lint configuration
